@@ -15,8 +15,10 @@
     ValueError("Unable to parse fn ...")          [to_symbolic_repr m = None]  (outcome [GenRaises])
     exec(source)                                  [exec_code]: the module is compiled first -- a def
                                                   with a repeated argument name is a SyntaxError and
-                                                  nothing runs ([ExecSyntax]); then each [def] binds
-                                                  its name, and create_model() runs the chain
+                                                  nothing runs ([ExecSyntax]; cannot happen when the
+                                                  parameters went through _parameter_names,
+                                                  [c_renamed]); then each [def] binds its name, and
+                                                  create_model() runs the chain
     a name in the chain                           [resolve]: looked up among the defs (NameError
                                                   if absent); the rebuilt function object is
                                                   identified with the POSITION of its def (+1; 0 is
@@ -26,7 +28,10 @@
                                                   NameError) then an append to the container
     calling a rebuilt function                    [fsem_gen defs i vals]: wrong number of arguments
                                                   = TypeError = [None]; otherwise the body under the
-                                                  binding parameters := values
+                                                  binding parameters := values (a model name that
+                                                  was passed twice is bound at its FIRST position:
+                                                  _parameter_names renames the later ones, and the
+                                                  body only mentions model names)
     surrogates / readouts / data                  not emitted (the real code logs a warning for
                                                   surrogates and silently skips the others): the
                                                   rebuilt model has none *)
@@ -71,6 +76,7 @@ Section Gen.
   Variable fname : fnid -> string.
   Variable translate : fnid -> list name -> option E.
   Variable eval : E -> env -> option Z.
+  Variable same_fn : E * list name -> E * list name -> bool.
 
   (** _fn_to_symbolic_repr: fn_name = fn.__name__; expr None -> raise ValueError *)
   Definition fn_to_symbolic_repr (fn : fnid) (model_args : list name) : option (symfn E) :=
@@ -161,7 +167,7 @@ Section Gen.
   Definition generate (F : gen_facts) (m : model) : option (code E) :=
     match to_symbolic_repr m with
     | None => None
-    | Some sym => Some (generate_from_symrepr E nstr F sym)
+    | Some sym => Some (generate_from_symrepr E nstr same_fn F sym)
     end.
 
   (** ---- exec(source)["create_model"]() ------------------------------------------------- *)
@@ -236,7 +242,7 @@ Section Gen.
     end.
 
   Definition exec_code (c : code E) : outcome model :=
-    if negb (defs_compile (c_defs c)) then ExecSyntax
+    if negb (c_renamed c || defs_compile (c_defs c)) then ExecSyntax
     else obind (exec_ops (c_defs c) (c_ops c) ([], empty_model)) (fun st => Built (snd st)).
 
   (** calling the function object a def created: def key(p1, .., pn): return body *)
